@@ -24,6 +24,16 @@ EXTENDS Integers, Sequences, FiniteSets, TLC
 R == INSTANCE Rows
 E == INSTANCE Engine
 D == INSTANCE MC_RowsData
+C == INSTANCE Config
+
+\* what the budget's settings.yaml says and which files exist, as Config.tla sees it.  b.rules / b.mode / b.views are what
+\* the user means to configure; b.modeBogus (rule_mode: misspelt), b.mfMissing (merchants_file: names a file that is not
+\* there - while a legacy CSV lies next to it), b.vf (views file missing / unparsable) are the ways it can go wrong
+SettingsOf(b) == [modeKey |-> IF b.modeBogus THEN "bogus" ELSE IF b.mode = "first_match" THEN "absent" ELSE b.mode,
+                  mfKey |-> b.rules = "rules", mfFile |-> b.rules = "rules" /\ ~b.mfMissing,
+                  csvFile |-> b.rules = "csv" \/ (b.rules = "rules" /\ b.mfMissing),
+                  vfKey |-> b.views, vfFile |-> b.vf, cur |-> b.cur, year |-> b.year, out |-> b.out]
+Eff(b) == C!Effective(SettingsOf(b))
 
 \* ---- rows available to sources (ids into the Rows vocabulary) ---------------
 Cell(S, i) == CHOOSE c \in S : c.id = i
@@ -72,8 +82,9 @@ TruthOf(t, suppVisible, stripped) ==
 \* one classified transaction
 Classified(b, s, t) ==
   \* rule_mode is a property of .rules files: the legacy CSV loop is always first-match
-  LET f == RulesFile(IF b.rules = "csv" THEN "first_match" ELSE b.mode, b.rules)
-      c == E!Classify(f, [v |-> TruthOf(t, b.supp, b.xform /\ b.rules = "rules"), dyn |-> "val"]) IN
+  LET cfg == Eff(b)
+      f == RulesFile(IF cfg.rules = "csv" THEN "first_match" ELSE cfg.mode, cfg.rules)
+      c == E!Classify(f, [v |-> TruthOf(t, b.supp, b.xform /\ cfg.rules = "rules"), dyn |-> "val"]) IN
   [src |-> s.name, desc |-> t.desc[1], date |-> t.date, cents |-> t.cents,
    rule |-> IF c.win = 0 THEN 0 ELSE f.rules[c.win].id, cat |-> c.cat, sub |-> c.sub, tags |-> c.tags]
 
@@ -99,7 +110,8 @@ Flows(ts) == [bk \in {"income", "investment", "transfer_in", "transfer_out", "sp
 Report(b) ==
   LET ts == AllTxns(b) IN
   [txns |-> ts, flows |-> Flows(ts),
-   perSource |-> [i \in Counted(b) |-> Len(ParseSource(b.sources[i]))]]
+   perSource |-> [i \in Counted(b) |-> Len(ParseSource(b.sources[i]))],
+   cfg |-> Eff(b)]
 
 \* ---- C16: explain / discover are views of the same classification ------------------------
 \* a description and amount typed at the command line (not in any statement) is classified like a transaction would be
